@@ -25,6 +25,10 @@ FragmentsOfRegexps, Packet.as_regular_expression and pattern_matching.filter_lik
  (f) Bits: all-fixed byte -> literal; all-don't-care -> .{1}; don't-care suffix ->
      range [lo-hi] with escaped bounds; otherwise the class of {(p & dont_care) | fixed}.
 Language inclusion of the regex and the regex engine itself are not decided.
+
+Round 4: user callables run on a pattern sit in a try that tolerates Exception; the base insert
+stores a chunk for every recorded position; the placeholder of a pattern chunk is never empty;
+constructor-derived attributes (a marker's prepared pattern) read as their definition.
 """
 import ast
 
